@@ -159,6 +159,8 @@ def run_grid(case):
 CONST_HEAVY = [
     "CONST a% = 7\nCONST b% = a% * 2\nDIM x(b%) AS INTEGER\nPRINT UBOUND(x); a% + b%\n",
     "CONST s$ = \"ab\" + \"cd\"\nPRINT s$; LEN(s$)\n",
+    "CONST a$ = \"x\"\nCONST b$ = a$ + \"y\"\nCONST c$ = b$\nPRINT b$; a$; c$; b$ + c$\n",
+    "CONST p = 2\nCONST q = p + 1\nPRINT q\nzs\nSUB zs\nCONST p = 10\nCONST r = q * p\nPRINT q; p; r\nEND SUB\n",
     "CONST k& = 70000 + 1\nPRINT k& * 2\nIF k& > 5 THEN PRINT \"big\"\n",
     "IF 1 THEN PRINT \"t\" ELSE PRINT \"f\"\nIF 0 THEN PRINT \"t\" ELSE PRINT \"f\"\n",
     "WHILE 0\nPRINT 1\nWEND\nDO WHILE 0\nLOOP\nPRINT 2\n",
